@@ -651,7 +651,19 @@ func (p *Program) Func(key string) *ssa.Function {
 		}
 	}
 	key = ExpandKey(key)
-	return p.fnIndex[key]
+	if fn := p.fnIndex[key]; fn != nil {
+		return fn
+	}
+	// a method is found whether it is declared on the type or on a pointer to it (turning a
+	// value receiver into a pointer receiver, or back, is a behaviour-preserving edit for a
+	// method that only reads)
+	if strings.HasPrefix(key, "(*") {
+		return p.fnIndex["("+key[2:]]
+	}
+	if strings.HasPrefix(key, "(") {
+		return p.fnIndex["(*"+key[1:]]
+	}
+	return nil
 }
 
 // ExpandKey expands the "mod" shorthand.
